@@ -398,9 +398,17 @@ impl ZipOffsetBlobStore {
         let mut store = Self::with_config(config)?;
 
         // Read content data with SIMD optimization for large content
-        store.content.reserve(header.content_bytes as usize)?;
-        let mut content_bytes = vec![0u8; header.content_bytes as usize];
-        reader.read_exact(&mut content_bytes)?;
+        // `content_bytes` is a raw header field: read at most that many bytes and let the
+        // buffer grow with the data that is really there, instead of allocating (twice)
+        // whatever the header claims before a single content byte has been seen.
+        let mut content_bytes = Vec::new();
+        (&mut *reader).take(header.content_bytes).read_to_end(&mut content_bytes)?;
+        if content_bytes.len() as u64 != header.content_bytes {
+            return Err(ZiporaError::invalid_data(
+                "content section is shorter than the header declares",
+            ));
+        }
+        store.content.reserve(content_bytes.len())?;
         
         // Use SIMD-optimized extend for large content
         if store.should_use_simd(content_bytes.len()) {
